@@ -93,7 +93,7 @@ def known_case_patterns():
 
 
 def corpus(tier, seed):
-    per_prop = 5 if tier == "quick" else 40
+    per_prop = 5 if tier == "quick" else 16
     pats = known_case_patterns()
     groups = []      # (owner, headers, prelude, mode, extra flags, [cases], unit params)
     _excluded["n"] = 0
